@@ -418,6 +418,9 @@ def term_as_num(t: Val, array: bool, kind=None) -> Num:
         length = sym.A('Len', ref)
         if isinstance(t, Term) and t.head == 'listcomp' and len(t.args) == 2 and isinstance(t.args[1], Num):
             length = t.args[1].r
+            if isinstance(t.args[0], Term):
+                # [f(..$i..) | $i < n]: element i is the (opaque) value of the body at i
+                return Num(sym.A('val', Ref('$t', t.args[0])), length, kind or 'ndarray')
         elif isinstance(t, Term):
             ln = lib_length(t)
             if ln is not None:
